@@ -128,6 +128,19 @@ fn gen(seed: u64, idx: u64, _tier: Tier) -> Plan {
                 s.seed_hex = String::from_utf8(digits).unwrap();
                 s.seed_written = Some(s.seed_hex.clone());
             }
+            // pasted from a document: typographic quotes, a zero-width space or a byte-order mark in
+            // front, a no-break space behind (file and environment alike)
+            11 if rng.chance(1, 2) => {
+                let h = s.seed_hex.clone();
+                s.seed_written = Some(match rng.below(6) {
+                    0 => format!("\u{201c}{}\u{201d}", h),
+                    1 => format!("\u{200b}{}", h),
+                    2 => format!("\u{feff}{}", h),
+                    3 => format!("{}\u{a0}", h),
+                    4 => format!("\u{ab}{}\u{bb}", h),
+                    _ => format!("\u{2018}{}\u{2019}", h),
+                });
+            }
             11 => s.seed_written = Some(format!("{}zz", s.seed_hex)),
             12 => s.seed_written = Some(format!("{}{}", s.seed_hex, *rng.pick(&["0", "00", "0000"]))),
             6 | 7 => {
